@@ -2,6 +2,7 @@
 """regenerates MANIFEST.json from checks/*.py (CLAIMS below); run after adding a check"""
 import json, os
 CLAIMS = {
+ "C01": ("symbolic execution of the real assembler vs. a reference MSP430 encoder over symbolic operands and engine-enumerated forms, plus the symbolic-bytes disasm/asm fixpoint harness; Z3 decides byte equality", "1 (C01)"),
  "C02": ("symbolic execution of the real two-pass assembler on variable-length instruction forms with symbolic backward/forward operand values; Z3 decides pass-1 label == pass-2 placement", "1 (C02)"),
  "C03": ("symbolic execution of the real file writers/readers on images with symbolic bytes vs. independent format decoders; Z3 decides content/checksum assertions", "1 (C03)"),
  "C04": ("symbolic execution of EvalExpression/Operator/Var (LLVM IR) vs. reference evaluator; Z3 decides every path", "1 (C04)"),
